@@ -2,12 +2,13 @@ package main
 
 func init() {
 	props["C07"] = cfg("./c07", false, withShards(4, 16), withAssume(
-		"domain: finite measurements, strictly increasing finite boundaries, 1 <= MaxSize <= 160, -10 <= MaxScale <= 20",
+		"domain: finite measurements, strictly increasing finite boundaries, 1 <= MaxSize <= 4097, -10 <= MaxScale <= 20; Counter and ObservableCounter instruments only measure non-negative values",
 		"an int64 measurement is bucketed as float64(v) (integers beyond 2^53 by their rounded value)",
 		"float64 Sum is compared exactly only when every partial sum is representable, otherwise within 1e-12*sum|v|; not at all when sum|v| >= 2^1023",
 		"the reported exponential scale is only required to lie in [-10, MaxScale] and not to increase between cumulative collections, not to be the largest that fits",
 		"a measurement dropped with a reported scale underflow (MaxSize 1 or 2) is removed from the reference after checking that it really cannot be placed at scale -10",
 		"the Sum of an int64 histogram is compared exactly with the mathematical (math/big) sum whenever that is an int64, also when a prefix of the measurements sums outside the int64 range; not at all when the total itself is not an int64",
+		"instrument_kinds: the Sum of a histogram point of an UpDownCounter, Gauge, ObservableUpDownCounter or ObservableGauge is documented not to be collected and is not compared; with NoMinMax the extrema are not compared; with the default aggregation (nothing configured) the reported boundaries are the reference",
 		"multi_instrument: any *metricdata.ResourceMetrics is legal input to Collect (fresh, last filled by the same reader, or last filled by another reader / another cycle); with several readers the scale-underflow errors of one Record are attributed to the readers whose point cannot hold the value at scale -10",
 	))
 }
